@@ -25,6 +25,18 @@
    [hm_order]; the HeaderMap capacity limit (24,576 distinct names -> over-size) is not
    modelled (it only makes the code refuse more).
 
+   The second half ([step], [drain], [run]) is one stream seen frame by frame, with the
+   application of the harness polling everything it holds after every frame; this is what
+   [check_http_recv] compares with the real crate (what the application was handed, byte-exact,
+   the RST_STREAM and GOAWAY frames, the 431 answer).  Oddities of the code that are mirrored:
+   a response without :status becomes 200 (KF-C13-1); the pseudo part of a trailers block is
+   dropped (KF-C13-2); a content-length of a 1xx head stays in force for the final response;
+   204/304 are exempt from the content-length check only for END_STREAM on the HEADERS frame;
+   a malformed PUSH_PROMISE block resets the PARENT stream; an empty PUSH_PROMISE block is a
+   connection error; no RST_STREAM is written when the failing frame had already closed the
+   stream (client) or when the 431 answer closed it (server); a stray frame on a stream that
+   is closed in both directions is answered with RST_STREAM(STREAM_CLOSED).
+
    Definitions only; proofs in Proofs/HttpRulesProofs.v. *)
 From Coq Require Import String Ascii.
 From H2V Require Import Base.Tac Base.Bytes Model.HttpTokens Ref.Rfc9113Http.
